@@ -77,6 +77,14 @@ fn usize_value(body: Rc<SExp>) -> Result<usize, CompileErr> {
     }
 }
 
+/// The n-th argument given to an extension function, or an error at the call's
+/// location when the call has too few arguments.
+fn required_arg(loc: &Srcloc, args: &[Rc<SExp>], n: usize) -> Result<Rc<SExp>, CompileErr> {
+    args.get(n)
+        .cloned()
+        .ok_or_else(|| CompileErr(loc.clone(), format!("missing argument {}", n + 1)))
+}
+
 /// A container for a function to evaluate in advanced preprocessor macros.
 /// We use this trait (which is very similar to the extension trait in Evaluator)
 /// as a definite handler for a specific named form, so optional returns aren't
@@ -96,7 +104,7 @@ impl StringQ {
 
 impl ExtensionFunction for StringQ {
     fn try_eval(&self, loc: &Srcloc, args: &[Rc<SExp>]) -> Result<Rc<SExp>, CompileErr> {
-        let res = match match_quoted_string(args[0].clone()) {
+        let res = match match_quoted_string(required_arg(loc, args, 0)?) {
             Ok(_) => SExp::Integer(loc.clone(), bi_one()),
             _ => SExp::Nil(loc.clone()),
         };
@@ -115,7 +123,7 @@ impl NumberQ {
 
 impl ExtensionFunction for NumberQ {
     fn try_eval(&self, loc: &Srcloc, args: &[Rc<SExp>]) -> Result<Rc<SExp>, CompileErr> {
-        let res = match match_number(args[0].clone()) {
+        let res = match match_number(required_arg(loc, args, 0)?) {
             Ok(_) => SExp::Integer(loc.clone(), bi_one()),
             _ => SExp::Nil(loc.clone()),
         };
@@ -134,7 +142,7 @@ impl SymbolQ {
 
 impl ExtensionFunction for SymbolQ {
     fn try_eval(&self, loc: &Srcloc, args: &[Rc<SExp>]) -> Result<Rc<SExp>, CompileErr> {
-        let res = match match_atom(args[0].clone()) {
+        let res = match match_atom(required_arg(loc, args, 0)?) {
             Ok(_) => SExp::Integer(loc.clone(), bi_one()),
             _ => SExp::Nil(loc.clone()),
         };
@@ -152,8 +160,8 @@ impl SymbolToString {
 }
 
 impl ExtensionFunction for SymbolToString {
-    fn try_eval(&self, _loc: &Srcloc, args: &[Rc<SExp>]) -> Result<Rc<SExp>, CompileErr> {
-        let (loc, value) = match_atom(args[0].clone())?;
+    fn try_eval(&self, loc: &Srcloc, args: &[Rc<SExp>]) -> Result<Rc<SExp>, CompileErr> {
+        let (loc, value) = match_atom(required_arg(loc, args, 0)?)?;
         Ok(Rc::new(SExp::QuotedString(loc, b'\"', value)))
     }
 }
@@ -167,8 +175,8 @@ impl StringToSymbol {
 }
 
 impl ExtensionFunction for StringToSymbol {
-    fn try_eval(&self, _loc: &Srcloc, args: &[Rc<SExp>]) -> Result<Rc<SExp>, CompileErr> {
-        let (loc, value) = match_quoted_string(args[0].clone())?;
+    fn try_eval(&self, loc: &Srcloc, args: &[Rc<SExp>]) -> Result<Rc<SExp>, CompileErr> {
+        let (loc, value) = match_quoted_string(required_arg(loc, args, 0)?)?;
         Ok(Rc::new(SExp::Atom(loc, value)))
     }
 }
@@ -209,8 +217,8 @@ impl NumberToString {
 }
 
 impl ExtensionFunction for NumberToString {
-    fn try_eval(&self, _loc: &Srcloc, args: &[Rc<SExp>]) -> Result<Rc<SExp>, CompileErr> {
-        let match_res = match_number(args[0].clone())?;
+    fn try_eval(&self, loc: &Srcloc, args: &[Rc<SExp>]) -> Result<Rc<SExp>, CompileErr> {
+        let match_res = match_number(required_arg(loc, args, 0)?)?;
         let (use_loc, int_val) = match &match_res {
             MatchedNumber::MatchedInt(l, i) => (l.clone(), i.clone()),
             MatchedNumber::MatchedHex(l, h) => (l.clone(), number_from_u8(h)),
@@ -232,8 +240,8 @@ impl StringToNumber {
 }
 
 impl ExtensionFunction for StringToNumber {
-    fn try_eval(&self, _loc: &Srcloc, args: &[Rc<SExp>]) -> Result<Rc<SExp>, CompileErr> {
-        let (loc, value) = match_quoted_string(args[0].clone())?;
+    fn try_eval(&self, loc: &Srcloc, args: &[Rc<SExp>]) -> Result<Rc<SExp>, CompileErr> {
+        let (loc, value) = match_quoted_string(required_arg(loc, args, 0)?)?;
         if let Ok(cvt_bi) = decode_string(&value).parse::<Number>() {
             Ok(Rc::new(SExp::Integer(loc, cvt_bi)))
         } else {
@@ -251,13 +259,14 @@ impl StringLength {
 }
 
 impl ExtensionFunction for StringLength {
-    fn try_eval(&self, _loc: &Srcloc, args: &[Rc<SExp>]) -> Result<Rc<SExp>, CompileErr> {
-        let (loc, value) = match_quoted_string(args[0].clone())?;
+    fn try_eval(&self, loc: &Srcloc, args: &[Rc<SExp>]) -> Result<Rc<SExp>, CompileErr> {
+        let string_arg = required_arg(loc, args, 0)?;
+        let (loc, value) = match_quoted_string(string_arg.clone())?;
         if let Some(len_bi) = value.len().to_bigint() {
             return Ok(Rc::new(SExp::Integer(loc, len_bi)));
         }
         Err(CompileErr(
-            args[0].loc(),
+            string_arg.loc(),
             "Error getting string length".to_string(),
         ))
     }
@@ -272,11 +281,12 @@ impl Substring {
 }
 
 impl ExtensionFunction for Substring {
-    fn try_eval(&self, _loc: &Srcloc, args: &[Rc<SExp>]) -> Result<Rc<SExp>, CompileErr> {
-        let start_element = usize_value(args[1].clone())?;
-        let end_element = usize_value(args[2].clone())?;
+    fn try_eval(&self, loc: &Srcloc, args: &[Rc<SExp>]) -> Result<Rc<SExp>, CompileErr> {
+        let string_arg = required_arg(loc, args, 0)?;
+        let start_element = usize_value(required_arg(loc, args, 1)?)?;
+        let end_element = usize_value(required_arg(loc, args, 2)?)?;
 
-        match args[0].borrow() {
+        match string_arg.borrow() {
             SExp::QuotedString(l, ch, s) => {
                 if start_element > end_element || start_element > s.len() || end_element > s.len() {
                     return Err(CompileErr(
@@ -292,7 +302,7 @@ impl ExtensionFunction for Substring {
                     .collect();
                 Ok(Rc::new(SExp::QuotedString(l.clone(), *ch, result_value)))
             }
-            _ => Err(CompileErr(args[0].loc(), "Not a string".to_string())),
+            _ => Err(CompileErr(string_arg.loc(), "Not a string".to_string())),
         }
     }
 }
